@@ -96,8 +96,8 @@ class Row(Vector):
 		if not table._underlying:
 			self._dtype = DataType(object, nullable=True)
 		else:
-			# Check uniformity of column types
-			col_dtypes = [col._dtype for col in table._underlying]
+			# Check uniformity of column types (an empty, untyped column has no dtype yet)
+			col_dtypes = [col._dtype if col._dtype is not None else DataType(object, nullable=True) for col in table._underlying]
 			unique_kinds = {dt.kind for dt in col_dtypes}
 			
 			if len(unique_kinds) == 1:
